@@ -250,6 +250,15 @@ def eval_big(case):
         if thr is None:
             return SKIP('no suitable cycle for a data-derived threshold')
         base['threshold_kwargs']['amp_consistency_threshold'] = thr
+    ctor = None
+    if optkind == 'amp-both':      # amplitude method, min_n_cycles given in the burst options AND (differently) in the thresholds
+        base = {'burst_method': 'amp', 'threshold_kwargs': {'burst_fraction_threshold': .5, 'min_n_cycles': 4},
+                'burst_kwargs': {'amp_threshes': (.5, 1.), 'min_n_cycles': 2}}
+        ctor = dict(burst_method='amp', thresholds=dict(base['threshold_kwargs']), burst_kwargs=dict(base['burst_kwargs']))
+    elif optkind == 'short':       # thresholds given to the object by their short names (partly): same analysis as the full names
+        base = {'center_extrema': 'trough', 'threshold_kwargs': dict(S.T0, monotonicity_threshold=.35, amp_consistency_threshold=.3)}
+        ctor = dict(center_extrema='trough', thresholds={'amp_fraction': 0., 'amp_consistency': .3, 'period_consistency_threshold': .5,
+                                                         'monotonicity': .35, 'min_n_cycles': 2})
     if optkind == 'list':
         rows = row_options('list', 5, True)
         opts = [copy.deepcopy(rows[i % 5]) for i in range(n)]
@@ -267,7 +276,7 @@ def eval_big(case):
             if entry == '2d':
                 got = compute_features_2d(sigs.copy(), fs, fr, compute_features_kwargs=copy.deepcopy(opts), axis=0, return_samples=True, n_jobs=1)
             else:
-                bg = BycycleGroup(center_extrema='trough', thresholds=dict(base['threshold_kwargs']))
+                bg = BycycleGroup(**ctor) if ctor else BycycleGroup(center_extrema='trough', thresholds=dict(base['threshold_kwargs']))
                 bg.fit(sigs.copy(), fs, fr, axis=0, n_jobs=1)
                 got, obj = bg.df_features, bg
     except Exception as e:      # noqa
@@ -300,7 +309,7 @@ def spaces(tier, seed):
     pairs = sorted({(c[0], eff_workers(c[3], c[0])) for c in cfgs})
     prepare_model(pairs)
     from bcmc.explore import ListSpace
-    big = [[k, e, o] for k in ('many', 'large') for e, os_ in (('2d', ('dict', 'list')), ('group', ('dict', 'data-below', 'data-above'))) for o in os_]
+    big = [[k, e, o] for k in ('many', 'large') for e, os_ in (('2d', ('dict', 'list', 'amp-both')), ('group', ('dict', 'data-below', 'data-above', 'amp-both', 'short'))) for o in os_]
     return [Schedules(tier), ListSpace('big-groups', big, eval_big,
                                        describe='12 short rows / 16 rows of 8200 samples (array > 1 MB) x 2-D function and BycycleGroup x shared dict, '
                                                 'per-row list, thresholds one floating-point step from a data value')]
